@@ -193,6 +193,24 @@ def run(ctx):
     infs = it.call_function(gp, [], {"element": el}, None, gp.node)
     got = sorted((i.get("name"), i.get("src")) for i in infs)
     r4.check(got == [("fruits", "jr://file-csv/fruits.csv"), ("prices", "jr://file-csv/prices.csv")], "pulldata", "each pulldata() first argument becomes a csv file instance", gp.loc(), why_fail=repr(got))
+    # the last-saved instance is declared for every question kind and every cell kind that can carry
+    # ${last-saved#name}: default, choice_filter (ordinary AND external selects: the latter are input questions whose
+    # filter becomes the `query` predicate), and the bind expressions
+    gls = scls.methods["_generate_last_saved_instance"]
+    from .c07 import _mk as _mk7b
+    for cname, fq in (("select", "pyxform.question:MultipleChoiceQuestion"), ("external select / input", "pyxform.question:InputQuestion"), ("range", "pyxform.question:RangeQuestion")):
+        ci_ = repo.cls(fq)
+        for field, attrs, want in (("default", {"default": "${last-saved#x}"}, True), ("choice_filter", {"choice_filter": "name = ${last-saved#x}"}, True),
+                                   ("bind calculate", {"bind": {"type": "string", "calculate": "${last-saved#x} + 1"}}, True), ("bind relevant", {"bind": {"type": "string", "relevant": "${last-saved#x} = 1"}}, True),
+                                   ("no last-saved anywhere", {"default": "${x}", "choice_filter": "a = ${x}", "bind": {"type": "string", "calculate": "${x}"}}, False)):
+            el_ = _mk7b(ctx, ci_, "q", type="text", **{"bind": {"type": "string"}, **attrs})
+            it = ctx.interp("C09.R4")
+            it.reset([])
+            try:
+                got = bool(it.call_function(gls, [el_], {}, None, gls.node))
+            except Raised as e:
+                got = f"raises {e.exc_name}"
+            r4.check(got is want, f"last-saved instance[{cname}: {field}]", f"{'declared' if want else 'not declared'}", gls.loc(), why_fail=f"got {got}")
     rules.append(r4)
 
     # ------------------------------------------------------------------ R5
